@@ -375,7 +375,7 @@ pub fn run_one(id: &str, c: &Case, rep: &mut Report) {
         }
         return;
     }
-    if c.family == "zoom" && matches!(id, "C01" | "C06" | "C16" | "Xzoom") {
+    if c.family == "zoom" && matches!(id, "C01" | "C05" | "C06" | "C16" | "Xzoom") {
         crate::p_zoom::one_zoom(id, c, rep);
         return;
     }
